@@ -41,7 +41,15 @@ def prepare():
     _prepared[0] = True
 
 
-def _wrap_stdio():
+def _wrap_stdio(strict=False):
+    if strict:
+        # a UTF-8 locale proper (en_US.UTF-8 ...): names that are not valid UTF-8 cannot be printed on stdout
+        sys.stdin = io.TextIOWrapper(io.FileIO(0, 'r', closefd=False), encoding='utf-8', errors='strict')
+        sys.stdout = io.TextIOWrapper(io.FileIO(1, 'w', closefd=False), encoding='utf-8', errors='strict')
+        sys.stderr = io.TextIOWrapper(io.FileIO(2, 'w', closefd=False), encoding='utf-8', errors='backslashreplace',
+                                      line_buffering=True)
+        sys.__stdout__, sys.__stderr__, sys.__stdin__ = sys.stdout, sys.stderr, sys.stdin
+        return
     # What CPython gives a CLI started with no locale set (C locale -> UTF-8
     # mode via PEP 538/540): utf-8 with surrogateescape on stdin/stdout,
     # backslashreplace on stderr.
@@ -93,7 +101,7 @@ def spawn(script, argv, cwd, env, stdin=b'', shim_cfg=None, now=None, tty=False,
             os.dup2(fi, 0)
             os.dup2(fo, 1)
             os.dup2(fe, 2)
-            _wrap_stdio()
+            _wrap_stdio(strict=bool((shim_cfg or {}).get('stdio_strict')))
             os.environ.clear()
             for k, v in env.items():
                 os.environ[k] = v
